@@ -242,8 +242,10 @@ class Module:
             kw = [a for a in p["args"]]
             if kw:
                 a = kw[-1]
-                self.calls.append((p, len(L), ("    call %s(" % p["name"] if not p["fun"] else "    tmp_i = %s(" % p["name"]), ["%s = 1" % a.name.upper()], a.name))
-                L.append(("    call %s(" % p["name"] if not p["fun"] else "    tmp_i = %s(" % p["name"]) + "%s = 1)" % a.name.upper())
+                # the value of a keyword argument may itself contain `=` characters (relational operators)
+                val = self_r.choice(["1", "1", "tmp_i >= 2", "tmp_i == 0", "tmp_i /= 0", "(tmp_i <= 2)"])
+                self.calls.append((p, len(L), ("    call %s(" % p["name"] if not p["fun"] else "    tmp_i = %s(" % p["name"]), ["%s = %s" % (a.name.upper(), val)], a.name))
+                L.append(("    call %s(" % p["name"] if not p["fun"] else "    tmp_i = %s(" % p["name"]) + "%s = %s)" % (a.name.upper(), val))
         L.append("  end subroutine driver_%s" % self.name)
         L.append("end module %s" % self.name)
         return L
